@@ -401,12 +401,18 @@ func c08TicketsPart(thorough bool) c08PartSpec {
 		bc(func(p *wire.TransportParameters) *protocol.ByteCount { return &p.InitialMaxData }),
 		sn(func(p *wire.TransportParameters) *protocol.StreamNum { return &p.MaxBidiStreamNum }),
 		sn(func(p *wire.TransportParameters) *protocol.StreamNum { return &p.MaxUniStreamNum }),
-		{len(acl), func(p *wire.TransportParameters, i int) (bool, string) { p.ActiveConnectionIDLimit = acl[i]; return true, "" }},
+		{len(acl), func(p *wire.TransportParameters, i int) (bool, string) {
+			p.ActiveConnectionIDLimit = acl[i]
+			return true, ""
+		}},
 		{len(dgs), func(p *wire.TransportParameters, i int) (bool, string) {
 			p.MaxDatagramFrameSize = protocol.ByteCount(dgs[i])
 			return true, ""
 		}},
-		{2, func(p *wire.TransportParameters, i int) (bool, string) { p.EnableResetStreamAt = i == 1; return true, "" }},
+		{2, func(p *wire.TransportParameters, i int) (bool, string) {
+			p.EnableResetStreamAt = i == 1
+			return true, ""
+		}},
 	}
 	var chunks []c08Chunk
 	for a := range tfs {
